@@ -172,7 +172,7 @@ func (h *Hist) openSnaps() int {
 func (h *Hist) Step() {
 	e, r, mx := h.E, h.R, h.Cfg.Mix
 	if e.S == nil { // closed: must reopen
-		if e.Cfg.MemOnly {
+		if e.Cfg.MemOnly || e.NoRootsStop {
 			return
 		}
 		e.Reopen(false)
